@@ -73,8 +73,15 @@ pub(crate) fn execute_with_stream<'i>(
     let mut cursor_state = recursive_stream.met_fold_start(get_mut_stream(exec_ctx));
     let mut observer = FoldGenerationObserver::new();
 
+    #[cfg(feature = "verif_probes")]
+    let mut visited_values = 0usize;
+
     // this cycle manages recursive streams
     while let RecursiveCursorState::Continue(iterables) = cursor_state {
+        #[cfg(feature = "verif_probes")]
+        {
+            visited_values += iterables.iter().map(|iterable| iterable.len()).sum::<usize>();
+        }
         let ingredients =
             FoldStreamIngredients::new(iterable_name, instruction.clone(), last_instruction.clone(), fold_id);
         execute_iterations(
@@ -87,6 +94,17 @@ pub(crate) fn execute_with_stream<'i>(
         )?;
 
         cursor_state = recursive_stream.met_iteration_end(get_mut_stream(exec_ctx));
+    }
+
+    #[cfg(feature = "verif_probes")]
+    {
+        let stream_values = get_mut_stream(exec_ctx).iter().count();
+        if stream_values > visited_values {
+            air_log_targets::probe::hit(
+                "stream_fold_unvisited_values",
+                format!("{iterable_name} values={stream_values} visited={visited_values}"),
+            );
+        }
     }
 
     observer.update_completeness(exec_ctx);
